@@ -86,6 +86,8 @@ type SchedParams struct {
 	Free bool `json:"free,omitempty"`
 	// YieldUnlock: probability that a mutex release is followed by a park point (0: never)
 	YieldUnlock float64 `json:"yield_unlock,omitempty"`
+	// YieldWrite: probability that handing a message to a connection's write queue is preceded by a park point
+	YieldWrite float64 `json:"yield_write,omitempty"`
 }
 
 type lockReq struct {
@@ -388,6 +390,38 @@ func (k *Kernel) unlockHook(m interface{}) {
 	}
 }
 
+// YieldPoint is a seeded park point outside lock operations (used for "about to queue a write"): with probability p
+// the calling goroutine parks until the driver grants it, so that other goroutines can run in between.
+func (k *Kernel) YieldPoint(site string, p float64) {
+	if k.P.Free || p <= 0 {
+		return
+	}
+	k.mu.Lock()
+	k.unlockSeq++
+	yield := float64(Mix(k.Seed, 0x9e17+k.unlockSeq)%10000)/10000 < p
+	k.mu.Unlock()
+	if !yield {
+		return
+	}
+	tok := new(int)
+	k.lockHook(tok, site)
+	k.mu.Lock()
+	if r := k.owners[tok]; r != nil {
+		delete(k.owners, tok)
+		hs := k.heldBy[r.gid]
+		for i := len(hs) - 1; i >= 0; i-- {
+			if hs[i] == r {
+				hs = append(hs[:i], hs[i+1:]...)
+				break
+			}
+		}
+		k.heldBy[r.gid] = hs
+	}
+	delete(k.seenMutex, tok)
+	k.Stats.Yields++
+	k.mu.Unlock()
+}
+
 func (k *Kernel) keysHook(site string, n int) []int {
 	if !k.P.PermuteMap {
 		return nil
@@ -685,7 +719,7 @@ func (k *Kernel) choose(acts []action) action {
 		if found {
 			break
 		}
-		if a.kind == "grant" && a.req.site == "yield@unlock" {
+		if a.kind == "grant" && strings.HasPrefix(a.req.site, "yield@") {
 			continue // a goroutine that yields wants the others to go first
 		}
 		if (a.kind == "grant" && a.req.gid == k.lastGid) || (a.kind == "write" && a.wreq.gid == k.lastGid) {
@@ -695,7 +729,7 @@ func (k *Kernel) choose(acts []action) action {
 	}
 	if !found {
 		for i, a := range acts {
-			if (a.kind == "grant" && a.req.site != "yield@unlock") || a.kind == "write" {
+			if (a.kind == "grant" && !strings.HasPrefix(a.req.site, "yield@")) || a.kind == "write" {
 				pref, found = i, true
 				break
 			}
